@@ -120,7 +120,8 @@ func (s *sutB) direct(side string, d digest.Digest, data []byte) error {
 
 // runB executes one composite operation with a watchdog.
 func (s *sutB) runB(w []string) (reply string, isErr bool, cerr canonErr, missing []int, panicked string, hung bool) {
-	ctx := context.Background()
+	ctx, cancelDeadline := context.WithTimeout(context.Background(), 3*opDeadline)
+	defer cancelDeadline()
 	done := make(chan struct{})
 	go func() {
 		defer close(done)
@@ -173,7 +174,7 @@ func (s *sutB) runB(w []string) (reply string, isErr bool, cerr canonErr, missin
 	}()
 	select {
 	case <-done:
-	case <-time.After(20 * time.Second):
+	case <-time.After(hardLimit):
 		return "hung", false, canonErr{}, nil, "", true
 	}
 	s.mu.Lock()
